@@ -1804,3 +1804,11 @@ V("C07", "param_spec_below_first_level_compares_namespaces", "fire", "R07.a", (Z
 V("C07", "benign_rebind_pops_only_when_affected_nonempty", "benign", None, (Z, """            elif affected:
                 # All dynamic watchers""", """            elif len(affected) > 0:
                 # All dynamic watchers"""))
+V("C06", "on_init_runs_inside_the_installation_loop", "fire", "R06.b", (Z, """                if on_init and m not in init_methods:
+                    init_methods.append(m)""", """                if on_init and m not in init_methods:
+                    init_methods.append(m)
+                    m()""", ), (Z, """        for m in init_methods:
+            m()
+
+    def _resolve_dynamic_deps""", """
+    def _resolve_dynamic_deps"""))
